@@ -3,7 +3,7 @@
    a cleaned conjunct does not depend on the order in which its conditions arrive (Go map iteration, unstable
    sort.Slice); witnesses for the alternative readings of NOT. *)
 From Coq Require Import List NArith ZArith Bool Lia Permutation.
-From Pk Require Import Query QuerySort QueryClean QueryFlags QueryHosts QueryOps QuerySet QueryAtoms QueryMain QuerySeq QueryThen QueryGroup QueryChain.
+From Pk Require Import Query QuerySort QueryClean QueryFlags QueryHosts QueryOps QuerySet QueryAtoms QueryMain QuerySeq QueryThen QueryGroup QueryChain QueryMulti.
 Import ListNotations.
 Open Scope Z_scope.
 
@@ -156,3 +156,17 @@ Lemma ex_chain_ok : class3 ex_chain = true /\ expr_wf ex_chain.
 Proof. split; [reflexivity|]. cbn. repeat split; discriminate. Qed.
 Lemma hypotheses_satisfiable_class3 : (val_ok ex_val /\ ids_ok ex_val) /\ (class3 ex_chain = true /\ expr_wf ex_chain).
 Proof. split; [exact ex_val_ok|exact ex_chain_ok]. Qed.
+
+(* the judged fragment: an AND group with two payload filters on the left of a THEN, a group and a parenthesised THEN
+   in the middle of the chain, a directive inside the sequence:
+   (cdata:0 cdata:1) then ((cdata:1 or -(cdata:0 or tag:0)) then (<limit> cdata:0)) then (cdata:1 then cdata:0), OR-ed with ex_chain *)
+Definition ex_judged : expr :=
+  EOr (EThen (EThen (EAnd (EAtom (AData 0 [0%N])) (EAtom (AData 0 [1%N])))
+                    (EThen (EOr (EAtom (AData 0 [1%N])) (ENot (EOr (EAtom (AData 0 [0%N])) (EAtom (ATag 0 [0%N])))))
+                           (EAnd ESkip (EAtom (AData 0 [0%N])))))
+             (EThen (EAtom (AData 0 [1%N])) (EAtom (AData 0 [0%N]))))
+      ex_chain.
+Lemma ex_judged_ok : wf_seq true ex_judged = true /\ expr_wf ex_judged.
+Proof. split; [reflexivity|]. cbn. repeat split; discriminate. Qed.
+Lemma hypotheses_satisfiable_judged : (val_ok ex_val /\ ids_ok ex_val) /\ (wf_seq true ex_judged = true /\ expr_wf ex_judged).
+Proof. split; [exact ex_val_ok|exact ex_judged_ok]. Qed.
